@@ -161,7 +161,7 @@ def boundary_ranges(rnd, n):
             lo_a, hi_a = (0 if la == 1 else 10 ** (la - 1)), 10 ** la - 1
             lo_b, hi_b = (0 if lb == 1 else 10 ** (lb - 1)), 10 ** lb - 1
             shapes = [(lo_a, hi_b), (hi_a, lo_b if lb > la else hi_a), (hi_a, hi_b), (lo_a, lo_b)]
-            for _ in range(3):
+            for _ in range(max(3, n // 30)):
                 x, y = rnd.randint(lo_a, hi_a), rnd.randint(lo_b, hi_b)
                 shapes.append((min(x, y), max(x, y)))
             # carry patterns: ...99 / ...00 endings
@@ -895,7 +895,7 @@ def cases(check, tier, seed, shard, nshards):
     if check == 'C15':
         if shard == 0:
             yield {'kind': 'int-invalid'}
-        ranges = boundary_ranges(random.Random(seed * 7 + 15), 640 if not big else 6400)
+        ranges = boundary_ranges(random.Random(seed * 7 + 15), 640 if not big else 48000)
         for i, (a, b) in enumerate(ranges):
             if i % nshards != shard:
                 continue
@@ -908,7 +908,7 @@ def cases(check, tier, seed, shard, nshards):
             yield {'kind': 'dec-invalid'}
         if shard == 1 % nshards:
             yield {'kind': 'dec-glue'}
-        n = (200 if not big else 2000) // nshards + 1
+        n = (200 if not big else 16000) // nshards + 1
         for i in range(n):
             a = rnd.choice([0, 0, 0, 1, 5, 10, 99, 100, 123])
             b = a + rnd.choice([0, 1, 9, 90, 1000, 99999, 2147483647 - a])
@@ -924,7 +924,7 @@ def cases(check, tier, seed, shard, nshards):
         for i, (base, nmin, nmax) in enumerate(combos):
             if i % nshards == shard:
                 yield {'kind': 'numeral', 'base': base, 'nmin': nmin, 'nmax': nmax, 'seed': rnd.randrange(1 << 30)}
-        n = (1200 if not big else 12000) // nshards
+        n = (1200 if not big else 96000) // nshards
         for i in range(n):
             mn = rnd.choice([1, 1, 2, 3, 5, 6])
             mx = rnd.choice([None, mn, mn + 1, mn + 3, 6, 7])
@@ -940,7 +940,7 @@ def cases(check, tier, seed, shard, nshards):
         mine = shapes[shard::nshards]
         for i in range(0, len(mine), 400):
             yield {'kind': 'ipv6', 'strings': mine[i:i + 400], 'seed': rnd.randrange(1 << 30)}
-        n = (4000 if not big else 60000) // nshards
+        n = (4000 if not big else 1600000) // nshards
         rs = rand_ipv6(rnd, n)
         for i in range(0, len(rs), 400):
             yield {'kind': 'ipv6', 'strings': rs[i:i + 400], 'seed': rnd.randrange(1 << 30)}
@@ -953,7 +953,7 @@ def cases(check, tier, seed, shard, nshards):
                 yield {'kind': 'date', 'formats': [f], 'as_list': i % 2 == 0, 'seed': rnd.randrange(1 << 30)}
         if shard % 4 == 0:
             yield {'kind': 'date', 'formats': [], 'all': True, 'seed': rnd.randrange(1 << 30)}
-        n = (64 if not big else 640) // nshards
+        n = (64 if not big else 6400) // nshards
         for i in range(n):
             k = rnd.choice([2, 3, 5, 8, 16, 30])
             yield {'kind': 'date', 'formats': rnd.sample(fmts, k), 'seed': rnd.randrange(1 << 30)}
